@@ -113,6 +113,8 @@ TModels(s, t) ==
       THEN << ("model" :> "half space model") @@ ("max depth" :> 130 * Km) @@ ("spreading velocity" :> Dec(4, -2)) @@ ("ridge coordinates" :> Ridge(s)) @@ ("top temperature" :> 280) @@ ("bottom temperature" :> -1),
               ("model" :> "plate model") @@ ("max depth" :> 110 * Km) @@ ("spreading velocity" :> << <<0, <<<<Dec(2, -2), Dec(6, -2)>>>>>> >>) @@ ("ridge coordinates" :> Ridge(s))
               @@ ("top temperature" :> 280) @@ ("bottom temperature" :> 1600),
+              ("model" :> "half space model") @@ ("max depth" :> 100 * Km) @@ ("spreading velocity" :> Dec(3, -2)) @@ ("top temperature" :> 280) @@ ("bottom temperature" :> 1500)
+              @@ ("ridge coordinates" :> << <<XYg(s, <<-200, -500>>), XYg(s, <<0, 400>>)>>, <<XYg(s, <<300, 500>>), XYg(s, <<400, 1500>>)>> >>),    \* two pieces, oblique transform
               ("model" :> "plate model constant age") @@ ("max depth" :> 90 * Km) @@ ("plate age" :> 60000000) @@ ("top temperature" :> 280) @@ ("bottom temperature" :> 1500) >>
       ELSE <<>>)
   \o (IF t = "plume"
